@@ -1,6 +1,6 @@
 #!/bin/bash
 # dev aid: run every registered quick check on the current tree; print one line each
-cd /verif
+cd "$(dirname "$0")"
 for c in $(python3 -c "import json; print(' '.join(x['property_id'] for x in json.load(open('MANIFEST.json'))['checks']))"); do
   t0=$(date +%s); out=$(./check $c --tier ${1:-quick} 2>&1); rc=$?; t1=$(date +%s)
   echo "$c exit=$rc $((t1-t0))s $(echo "$out" | grep -E 'VIOLATION|TOOL-ERROR|KNOWN' | head -2 | tr '\n' ' ')"
